@@ -395,3 +395,55 @@ def write_replay(prop, case, violations, idx=0):
 
 def case_size(case):
     return len(jdump(case))
+
+
+# --------------------------------------------------------------------------------------
+# coverage-guided stage (atheris), used by thorough tiers
+
+
+def fuzz_stage(col: Collector, mod, runs, seed, max_len=4096, timeout=1500):
+    """Run `python -m vf.fuzz` for mod.PROP in a subprocess (libFuzzer owns the process).  Counts its executions,
+    turns crash files into violations (re-judged by run_case in this process)."""
+    import shutil
+    import subprocess
+    import tempfile
+
+    try:
+        import atheris  # noqa: F401
+    except Exception:
+        col.extra["atheris"] = "not importable - coverage-guided stage skipped"
+        return
+    out = tempfile.mkdtemp(prefix=f"vf-fuzz-{mod.PROP}-")
+    try:
+        cmd = [sys.executable, "-m", "vf.fuzz", mod.PROP, out, f"-runs={runs}", f"-seed={max(1, seed)}", f"-max_len={max_len}",
+               "-print_final_stats=0", "-verbosity=0", f"-artifact_prefix={out}/"]
+        env = dict(os.environ)
+        try:
+            p = subprocess.run(cmd, cwd=VERIF_DIR, env=env, capture_output=True, text=True, timeout=timeout)
+            status = p.returncode
+        except subprocess.TimeoutExpired:
+            status = "timeout"
+        stats = {}
+        sp = os.path.join(out, "stats.json")
+        if os.path.exists(sp):
+            stats = json.load(open(sp))
+        col.evaluations += int(stats.get("executions", 0))
+        col.cases += int(stats.get("executions", 0))
+        col.extra["atheris_executions"] = col.extra.get("atheris_executions", 0) + int(stats.get("executions", 0))
+        col.extra["atheris_distinct_nontrivial"] = col.extra.get("atheris_distinct_nontrivial", 0) + int(stats.get("distinct_nontrivial", 0))
+        if stats.get("known"):
+            col.extra["atheris_known_excluded"] = col.extra.get("atheris_known_excluded", 0) + int(stats["known"])
+        run_case = getattr(mod, "run_case_any", mod.run_case)
+        crashes = [f for f in os.listdir(out) if f.startswith("crash-") and f.endswith(".json")]
+        for f in crashes:
+            case = json.load(open(os.path.join(out, f)))["case"]
+            res = run_case(case)
+            unknown, _ = col.split(case, res.violations)
+            if unknown:
+                col.violations.append((case, unknown))
+        if not crashes and status not in (0, "timeout"):
+            raise HarnessError(f"atheris stage for {mod.PROP} ended with status {status} and no crash file: {p.stderr[-400:]}")
+        if status == "timeout":
+            col.extra["atheris_note"] = "stage stopped by its wall-clock budget (inconclusive, not a violation)"
+    finally:
+        shutil.rmtree(out, ignore_errors=True)
